@@ -60,6 +60,20 @@ def m0_stateful_iterator(f):
         finds = [c for c in users if c.get('f') == 'find']
         nexts = [c for c in users if c.get('f') == 'next']
         others = [c for c in users if c.get('f') not in ('find', 'next')]
+        # the loop spelling of that `find`: `for c in it.by_ref() { if c == "src" { break; } }` — nothing else in the body
+        floops = [lp for lp in f['loops'] if lp.get('kind') == 'for' and isinstance(lp.get('over'), dict) and on_it(lp['over'])]
+        if not finds and len(floops) == 1 and len(nexts) == 1 and not others:
+            lp = floops[0]
+            brk = [x for x in f['loops'] if x.get('ctl') and any(fr.get('k') == 'for' and fr.get('line') == lp['line'] for fr in x.get('guard', []))]
+            body_calls = [c for c in f['calls'] if any(fr.get('k') == 'for' and fr.get('line') == lp['line'] for fr in c.get('guard', []))]
+            if len(brk) == 1 and str(brk[0]['ctl']).strip().startswith('break') and not body_calls:
+                conds = [fr for fr in brk[0]['guard'] if fr.get('k') == 'if']
+                cv = vt.unvar(conds[0].get('c')) if len(conds) == 1 and not conds[0].get('neg') else None
+                is_src = isinstance(cv, dict) and cv.get('k') == 'op' and cv.get('op') == '==' and any(isinstance(vt.strip(a), dict) and vt.strip(a).get('k') == 'lit' and vt.strip(a).get('v') == 'src' for a in cv.get('args', []))
+                result_from_next = any(x.get('k') == 'call' and x.get('f') == 'next' and x.get('recv') is not None and on_it(x['recv']) for x in vt.walk(f.get('tail') or {}))
+                if is_src and lp.get('line', 0) < nexts[0].get('line', 0) and result_from_next and nexts[0].get('parent') == 'try':
+                    return True
+            continue
         if len(finds) != 1 or len(nexts) != 1 or others:
             continue
         clo = vt.unvar(finds[0]['args'][0]) if finds[0].get('args') else None
@@ -94,7 +108,14 @@ def m0(ctx, rep):
     if not ok:
         ok = m0_stateful_iterator(f)
     rep.check(ok, 'M0', 'crate-name:nearest-src', 'path scanned from the file upwards to the nearest `src`, crate = the component above it', f"find_crate_name derives the crate from `{'.'.join(order)}` — it must scan the path components from the file upwards (rev), skip to the nearest `src` and take the component above it; scanning from the root picks an ancestor directory named `src` (e.g. ~/src/<workspace>/..) and merges every crate into one wrongly named file", site)
-    rep.check("replace('-', '_')" in txt.replace('"', "'"), 'M0', 'crate-name:dashes', 'dashes become underscores', 'find_crate_name no longer maps `-` to `_`', site)
+    # the dash mapping may sit in a helper that is called or handed to `map` by path (`.map(Self::from_directory_name)`)
+    dash = "replace('-', '_')" in txt.replace('"', "'") or "replace('-', '_')" in vt.show(ctx.x(f).get('tail')).replace('"', "'")
+    if not dash:
+        named = {str(x.get('text', '')).replace(' ', '').split('::')[-1] for x in vt.walk(f.get('tail') or {}) if x.get('k') == 'path'} | {str(c.get('f')).split('::')[-1] for c in f['calls'] if c.get('recv') is None}
+        for g in ctx.fns(file='language/mod.rs'):
+            if g['name'].split('::')[-1] in named and "replace('-', '_')" in vt.show(g.get('tail')).replace('"', "'"):
+                dash = True
+    rep.check(dash, 'M0', 'crate-name:dashes', 'dashes become underscores', 'find_crate_name no longer maps `-` to `_`', site)
 
 
 def m1(ctx, rep, T):
@@ -175,6 +196,26 @@ def m1(ctx, rep, T):
         for alt in emit.site_alternatives(T, s):
             if any(c[0] == 'lit' and c[1].startswith('package ') for c in alt) and any(c[0] == 'atom' and 'crate_name' in c[1] for c in alt):
                 pkg = alt
+    if pkg is None:
+        # the line may be written piecewise (`write!("package {}", pkg)`, then under `if multi_file` `write!(".{}", crate)`): what
+        # a multi-file run emits, in source order — the pieces not excluded by `multi_file` — concatenated
+        seq = []
+        for s in sorted(kb['sites'], key=lambda x: x.get('line', 0)):
+            excluded = any(fr.get('k') == 'if' and 'multi_file' in vt.show(fr.get('c')) and bool(fr.get('neg')) != ('!' in vt.show(fr.get('c')).replace(' ', '')[:2]) for fr in s.get('guard', []))
+            if excluded:
+                continue
+            alts = emit.site_alternatives(T, s)
+            if alts:
+                seq += list(alts[0])
+        merged = []
+        for c in seq:
+            if c[0] == 'lit' and merged and merged[-1][0] == 'lit':
+                merged[-1] = ('lit', merged[-1][1] + c[1]) + tuple(merged[-1][2:])
+            else:
+                merged.append(c)
+        for i, c in enumerate(merged[:-3]):
+            if c[0] == 'lit' and c[1].endswith('package ') and merged[i + 1][0] == 'atom' and merged[i + 2][0] == 'lit' and merged[i + 2][1].startswith('.') and merged[i + 3][0] == 'atom' and 'crate_name' in merged[i + 3][1]:
+                pkg = [('lit', 'package ')] + merged[i + 1:i + 4]
     imp = None
     for s in ki['sites']:
         for alt in emit.site_alternatives(T, s):
